@@ -77,6 +77,8 @@ func Variants(infos []*linter.CheckerInfo) []Variant {
 						out = append(out, Variant{Info: info, Tag: fmt.Sprintf("%s=%d", k, n), Values: map[string]interface{}{k: n}})
 					}
 				}
+				// negative values: a constructor may refuse them (an error is fine), a Check call must not crash
+				out = append(out, Variant{Info: info, Tag: fmt.Sprintf("%s=%d", k, -1), Values: map[string]interface{}{k: -1}, MayFail: true})
 			}
 		}
 		if info.Name == "ruleguard" {
